@@ -175,7 +175,7 @@ func init() {
 
 func runC01(c *Ctx) {
 	r := c.R
-	r.Explanation = "Decides the routing and traversal-order clauses of C01 on every path of Send, the fan-out callback and the traversal function: Send processes exactly the graph looked up under its own event type with a fresh event built from (type, payload, clock, empty format table) and returns that processing's results; the fan-out starts the traversal exactly once per pipeline with the same event/channel/wait group and stops only when the context is done; the traversal invokes Process exactly once, outside any loop, and starts children iff err == nil and event != nil and there are successors, handing each successor the event the node RETURNED. linkNodes' index arithmetic, sync.Map.Range visiting every key and schedules are not decided. C01.range: graphMap.Range offers every stored pipeline to its callback exactly once and continues exactly as the callback says. C01.commit: the stored list is linked by this call from the currently registered nodes; C01.step children-due: successors that are due are always reached. C01.drain: the collector receives until the channel is closed or the context is done (a collector that leaves early blocks the launcher, later pipelines never start). C01.link no-caller-slice: no Broker method keeps a slice the caller handed in."
+	r.Explanation = "Decides the routing and traversal-order clauses of C01 on every path of Send, the fan-out callback and the traversal function: Send processes exactly the graph looked up under its own event type with a fresh event built from (type, payload, clock, empty format table) and returns that processing's results; the fan-out starts the traversal exactly once per pipeline with the same event/channel/wait group and stops only when the context is done; the traversal invokes Process exactly once, outside any loop, and starts children iff err == nil and event != nil and there are successors, handing each successor the event the node RETURNED. linkNodes' index arithmetic, sync.Map.Range visiting every key and schedules are not decided. C01.range: graphMap.Range offers every stored pipeline to its callback exactly once and continues exactly as the callback says. C01.commit: the stored list is linked by this call from the currently registered nodes; C01.step children-due: successors that are due are always reached. C01.drain: the collector receives until the channel is closed or the context is done (a collector that leaves early blocks the launcher, later pipelines never start). C01.link no-caller-slice: no Broker method keeps a slice the caller handed in. C01.section / C01.commit single-store: graph look-up and store in one section; an overwrite is one Store."
 	r.NotDecided = []string{"linkNodes linking in registration order (index arithmetic; left to TestLinkNodes)", "sync.Map.Range visiting every key (A4)", "goroutine schedules"}
 	a := c.protoAnchors("C01.anchor")
 	if a == nil {
@@ -197,6 +197,13 @@ func runC01(c *Ctx) {
 			c.R.Obls[i].Rule = "C01.commit"
 		}
 	}
+	// "every pipeline registered at that moment": a registration's look-up of the type's graph and its
+	// store into it are one critical section (a graph found absent under one acquisition and inserted
+	// under the next replaces the graph a concurrent first registration stored its pipeline in), and an
+	// overwrite is a single Store — Send ranges the roots without the Broker lock, a Delete followed by a
+	// Store lets it see neither version
+	c.ruleOneSection("C01.section")
+	c.ruleSingleStore("C01.commit")
 }
 
 // ruleLink: C01.link — linkNodes pairs node i with id i and chains them in
